@@ -33,8 +33,12 @@ type Instance interface {
 
 // Config describes one search.
 type Config struct {
-	Letters  []string                     // names, for reporting
-	New      func() Instance              // fresh instance in the initial state
+	Letters []string        // names, for reporting
+	New     func() Instance // fresh instance in the initial state
+	// NoDedup expands EVERY history instead of one representative per canonical state: state the canonical form does
+	// not contain (a counter or cache added to the implementation) can make histories with equal canonical states
+	// differ in their futures; short no-deduplication searches complement the deep deduplicating ones.
+	NoDedup  bool
 	MaxDepth int                          // histories of up to this many letters are explored
 	Deadline time.Time                    // zero = none
 	Workers  int                          // 0 = NumCPU
@@ -189,7 +193,7 @@ func BFS(cfg Config) Result {
 					res.Pruned++
 					continue
 				}
-				if prev, ok := seen[s.hash]; ok {
+				if prev, ok := seen[s.hash]; ok && !cfg.NoDedup {
 					res.Revisits++
 					if s.obs != "" || prev != "" {
 						res.ObsChecked++
